@@ -62,17 +62,26 @@ class Model:
         self.n = 0
 
     def ask(self, reqs, chunk=64):
+        """send the requests and read as many answers; the writing happens in a helper thread so that large requests
+        cannot dead-lock on full pipe buffers (`chunk` is kept for compatibility and ignored)"""
+        import threading
+        data = "".join(json.dumps(r, ensure_ascii=True) + "\n" for r in reqs)
+
+        def feed():
+            try:
+                self.p.stdin.write(data)
+                self.p.stdin.flush()
+            except Exception:
+                pass
+        t = threading.Thread(target=feed, daemon=True)
+        t.start()
         out = []
-        for i in range(0, len(reqs), chunk):
-            part = reqs[i:i + chunk]
-            data = "".join(json.dumps(r, ensure_ascii=True) + "\n" for r in part)
-            self.p.stdin.write(data)
-            self.p.stdin.flush()
-            for _ in part:
-                line = self.p.stdout.readline()
-                if not line:
-                    raise InfraError("driver died")
-                out.append(json.loads(line))
+        for _ in reqs:
+            line = self.p.stdout.readline()
+            if not line:
+                raise InfraError("driver died")
+            out.append(json.loads(line))
+        t.join()
         self.n += len(reqs)
         return out
 
@@ -361,7 +370,21 @@ def main(prop, argv):
             run.theorems = re.findall(r"^theorem\s+([A-Za-z0-9_.']+)", strip_comments(open(os.path.join(LEAN, *prop.MODULE.split(".")) + ".lean").read()), flags=re.M)
         if os.path.exists(DRIVER):
             run.model = Model()
-        prop.run(run)
+        try:
+            prop.run(run)
+        except InfraError:
+            raise
+        except Exception as e:
+            import traceback
+            tb = traceback.format_exc()
+            frames = traceback.extract_tb(e.__traceback__)
+            if any(os.path.realpath(f.filename).startswith(os.path.realpath(REPO) + os.sep) for f in frames):
+                # the implementation raised where the harness (written against the unchanged tree) expects it not to:
+                # behaviour changed; report it as a failing input with the traceback as the replay detail
+                run.fail("implementation-raised-unexpectedly", {"traceback_tail": tb[-1500:]}, {"exception": repr(e)})
+            else:
+                sys.stdout.write(tb)
+                raise InfraError("harness crashed: %r" % (e,))
         if run.model:
             run.model.close()
         return finish(run)
